@@ -1271,20 +1271,20 @@ class Container:
             name = f"solution of {solute.name} in {solvent.name}"
 
         # x is amount of source solution in mL, y is amount of solvent in mL
-        mass = sum(Unit.convert_from(substance, value, config.moles_storage_unit, 'g') for substance, value in
-                   source.contents.items())
+        mass = sum(Unit.convert_from(substance, value, 'U' if substance.is_enzyme() else config.moles_storage_unit, 'g')
+                   for substance, value in source.contents.items())
         moles = sum(Unit.convert_from(substance, value, config.moles_storage_unit, 'mol') for substance, value in
-                    source.contents.items())
+                    source.contents.items() if not substance.is_enzyme())
         volume = Unit.convert_from_storage(source.volume, 'mL')
         d_x = mass / volume
         mw_x = mass / moles
         m_x = Unit.convert_from_storage(source.contents.get(solute, 0), 'mol') / (volume / 1000)
 
         if isinstance(solvent, Container):
-            mass = sum(Unit.convert_from(substance, value, config.moles_storage_unit, 'g') for substance, value in
-                       solvent.contents.items())
+            mass = sum(Unit.convert_from(substance, value, 'U' if substance.is_enzyme() else config.moles_storage_unit, 'g')
+                       for substance, value in solvent.contents.items())
             moles = sum(Unit.convert_from(substance, value, config.moles_storage_unit, 'mol') for substance, value in
-                        solvent.contents.items())
+                        solvent.contents.items() if not substance.is_enzyme())
             volume = Unit.convert_from_storage(solvent.volume, 'mL')
             d_y = mass / volume
             mw_y = mass / moles
